@@ -379,7 +379,9 @@ impl<'a> Lexer<'a> {
         start_idx: usize,
     ) -> TokenValue<'a> {
         let mut iter = self.s[self.l..self.u].chars();
-        let mut n = initial_value;
+        // The integer part is accumulated in 64 bits and saturates;
+        // values that are out of range are reported once the whole number has been read.
+        let mut n: i64 = initial_value.into();
         let mut parsing_n = true;
         let mut d = [0_u8; 17];
         let mut next_d = 0_usize;
@@ -388,8 +390,7 @@ impl<'a> Lexer<'a> {
                 Some(c @ '0'..='9') => {
                     let i = (c as i32) - ('0' as i32);
                     if parsing_n {
-                        n = n.checked_mul(10).unwrap();
-                        n = n.checked_add(i).unwrap();
+                        n = n.saturating_mul(10).saturating_add(i.into());
                     } else {
                         if let Some(d) = d.get_mut(next_d) {
                             *d = i.try_into().expect("i in [0,9]")
@@ -418,22 +419,37 @@ impl<'a> Lexer<'a> {
                         self.l += n.len_utf8();
                     }
 
-                    let mut s = common::Scaled::from_decimal_digits(&d) + common::Scaled::ONE * n;
-                    if negative {
-                        s.0 *= -1;
-                    }
                     let raw_unit = &self.s[u..self.l];
-                    if let Some(unit) = common::ScaledUnit::parse(raw_unit) {
-                        let mut s =
-                            common::Scaled::new(n, common::Scaled::from_decimal_digits(&d), unit)
-                                .unwrap();
+                    let unit = common::ScaledUnit::parse(raw_unit);
+                    let glue_order = common::GlueOrder::parse(raw_unit);
+                    if unit.is_some() || glue_order.is_some() {
+                        // Infinite glue components are multiples of fil, fill or filll
+                        // and have the same range as dimensions in points.
+                        let s = i32::try_from(n).ok().and_then(|n| {
+                            common::Scaled::new(
+                                n,
+                                common::Scaled::from_decimal_digits(&d),
+                                unit.unwrap_or(common::ScaledUnit::Point),
+                            )
+                            .ok()
+                        });
+                        let Some(mut s) = s else {
+                            self.errs.add(Error::NumberTooLarge {
+                                number: Str {
+                                    value: self.s,
+                                    start: start_idx,
+                                    end: self.l,
+                                },
+                            });
+                            return TokenValue::Scaled(common::Scaled::ZERO);
+                        };
                         if negative {
                             s = -s;
                         }
-                        return TokenValue::Scaled(s);
-                    }
-                    if let Some(glue_order) = common::GlueOrder::parse(raw_unit) {
-                        return TokenValue::InfiniteGlue(s, glue_order);
+                        return match (unit, glue_order) {
+                            (None, Some(glue_order)) => TokenValue::InfiniteGlue(s, glue_order),
+                            _ => TokenValue::Scaled(s),
+                        };
                     }
                     self.errs.add(Error::InvalidDimensionUnit {
                         dimension: Str {
@@ -461,8 +477,18 @@ impl<'a> Lexer<'a> {
                         return TokenValue::Scaled(common::Scaled::ZERO);
                     }
                     if negative {
-                        n *= -1;
+                        n = -n;
                     }
+                    let Ok(n) = i32::try_from(n) else {
+                        self.errs.add(Error::NumberTooLarge {
+                            number: Str {
+                                value: self.s,
+                                start: start_idx,
+                                end: self.l,
+                            },
+                        });
+                        return TokenValue::Integer(0);
+                    };
                     return TokenValue::Integer(n);
                 }
             }
